@@ -21,6 +21,7 @@ if [ -z "${SKIP_CONFIRM:-}" ]; then
   fi
 fi
 cd /verif
+export VERIF_EVIDENCE_DIR=/var/tmp/mt-evidence
 for p in "$@"; do
   ./check $p --repo $W 2>&1 | sed "s#$W#<wt>#g" | cut -c1-400
   echo "check $p exit=${PIPESTATUS[0]}"
